@@ -526,7 +526,11 @@ def execute_adversarial(sc):
     try:
         if fn == 'sample':
             Y = build_tensor(sc)
-            I = teneva.sample(Y, m, seed=seed)
+            # tensors with exact zeros: the default noise floor `unsert` (absolute 1e-10) lets a draw enter a zero slice with
+            # probability n_0*unsert/sum, after which no conditional distribution exists; that is the documented parameter's
+            # doing, not part of the statement, so these tensors are sampled with unsert=0
+            kw_s = {'unsert': 0.0} if sc['tkind'] in ('sqdiff', 'zeros', 'delta') else {}
+            I = teneva.sample(Y, m, seed=seed, **kw_s)
             check_index_array('sample', I, m, n, V)
             h.append(np.asarray(I).tobytes())
         elif fn == 'sample_square':
